@@ -13,7 +13,6 @@ use std::collections::BTreeMap;
 use std::io::Write as _;
 use std::path::{Path, PathBuf};
 use std::process::{Command, Stdio};
-use std::time::{Duration, Instant};
 use verif_harness::util::*;
 
 #[path = "../forkrun.rs"]
@@ -237,6 +236,36 @@ impl<'a> MutGen<'a> {
         }
         out
     }
+}
+
+/// systematic, not random: EVERY aligned u32 / u16 of the first 160 bytes of every seed (file headers: counts, sizes,
+/// offsets, table lengths) set to 0, 1, 0x7FFFFFFF, 0x80000000, 0xFFFFFFFF, file length +- 1 (u16: 0, 1, 0x7FFF, 0x8000, 0xFFFF)
+fn header_sweep(seeds: &[Seed], rng: &mut Rng, every: usize) -> Vec<Mutant> {
+    let mut g = MutGen { seeds, rng: rng.fork(), thorough: false };
+    let mut out = vec![]; let mut n = 0usize;
+    for si in 0..seeds.len() {
+        let b = seeds[si].bytes.clone(); let len = b.len() as u32;
+        let hdr = b.len().min(160);
+        let mut k = 0;
+        while k + 2 <= hdr {
+            if k % 4 == 0 && k + 4 <= b.len() {
+                for v in [0u32, 1, 0x7FFF_FFFF, 0x8000_0000, 0xFFFF_FFFF, len.wrapping_sub(1), len + 1] {
+                    n += 1; if n % every != 0 { continue; }
+                    let mut m = b.clone(); put32(&mut m, k, v);
+                    let mut mu = g.mk(si, "hdr32", format!("hdr32@{}={:#x}", k, v), m);
+                    if mu.action == "extract" && n % 2 == 0 { mu.action = "decompile"; }
+                    out.push(mu);
+                }
+            }
+            for v in [0u32, 1, 0x7FFF, 0x8000, 0xFFFF] {
+                n += 1; if n % every != 0 { continue; }
+                let mut m = b.clone(); put16(&mut m, k, v);
+                out.push(g.mk(si, "hdr16", format!("hdr16@{}={:#x}", k, v), m));
+            }
+            k += 2;
+        }
+    }
+    out
 }
 
 fn generate(seeds: &[Seed], budget: usize, tier: &str, rng: &mut Rng) -> Vec<Mutant> {
@@ -505,22 +534,76 @@ fn run_inproc(seed: &Seed, bytes: &[u8], action: &str, opts: &[&str], xdir: &Pat
     })
 }
 
-fn run_all_inproc(seeds: &[Seed], muts: Vec<Mutant>) {
-    let xdir = work_dir("c16").join("inproc-xout");
-    let mut res = vec![];
+/// one library run in a forked child (an abort by allocation failure or a stack overflow must not take the harness down)
+fn run_lib_forked(dir: &Path, seed: &Seed, bytes: &[u8], action: &str, opts: &[&str]) -> Outcome {
+    let xdir = dir.join("xout");
+    let fname = format!("in.{}", ext_of(&seed.tool));
+    let r = run_forked_with(dir, || {
+        match run_inproc(seed, bytes, action, opts, &xdir) {
+            Ok(true) => 0,
+            Ok(false) => { eprintln!("error: {}: (library) an error was reported", fname); 1 },
+            Err((site, msg, bt)) => { eprintln!("\nthread 'main' panicked at {}:\n{}\nstack backtrace:\n{}", site, msg, bt); 101 },
+        }
+    });
+    classify("c16", &r, &[], &format!("{}:{}", seed.tool, action))
+}
+
+fn lib_mutants(seeds: &[Seed], budget: usize, tier: &str, rng: &mut Rng) -> Vec<Mutant> {
+    let mut muts = header_sweep(seeds, rng, if tier == "thorough" { 1 } else { 2 });
+    let more = generate(seeds, budget, "quick", rng);
+    muts.extend(more);
+    muts
+}
+
+fn lib_worker(seeds: &[Seed], muts: &[Mutant], k: usize, n: usize) {
+    truth::setup_for_test_harness();
+    let dir = work_dir("c16").join(format!("lw{}", k)); let _ = std::fs::create_dir_all(&dir);
+    let mut cnt = 0usize;
     for (i, m) in muts.iter().enumerate() {
-        // a marker before each case: if the process dies (abort, stack overflow), the driver knows where
-        let t0 = Instant::now();
-        let r = run_inproc(&seeds[m.seed], &m.bytes, m.action, &m.opts, &xdir);
-        let o = match r {
-            Ok(true) => Outcome { ok: true, class: "ok".into(), detail: String::new(), rc: 0 },
-            Ok(false) => Outcome { ok: true, class: "err".into(), detail: String::new(), rc: 1 },
-            Err((site, msg, bt)) => Outcome { ok: false, class: panic_class("c16", &site, &msg, &bt), detail: format!("panicked at {}: {}", site, msg), rc: 101 },
-        };
-        let o = if t0.elapsed() > Duration::from_secs(60) { Outcome { ok: false, class: format!("c16-timeout:{}:{}", seeds[m.seed].tool, m.action), detail: format!("{:?}", t0.elapsed()), rc: 124 } } else { o };
-        if !o.ok || m.kind == "seed" { res.push((i, o)); }
+        if i % n != k { continue; }
+        let mut o = run_lib_forked(&dir, &seeds[m.seed], &m.bytes, m.action, &m.opts);
+        if o.class.contains("-timeout") { o = run_lib_forked(&dir, &seeds[m.seed], &m.bytes, m.action, &m.opts); }
+        cnt += 1;
+        if !o.ok || m.kind == "seed" { println!("R\t{}\t{}\t{}\t{}\t{}", i, o.ok, o.class, o.detail.replace('\t', " ").replace('\n', " "), o.rc); }
     }
-    report(seeds, &muts, &res, "inproc");
+    println!("WDONE\t{}\t{}", k, cnt);
+}
+
+fn lib_master(manifest: &str, seeds: &[Seed], muts: &[Mutant], budget: usize, tier: &str) {
+    let nw = std::thread::available_parallelism().map(|n| n.get()).unwrap_or(8).min(16);
+    let exe = std::env::current_exe().unwrap();
+    let mut children = vec![];
+    for k in 0..nw {
+        children.push(Command::new(&exe).args(["libworker", &k.to_string(), &nw.to_string(), manifest, &budget.to_string(), tier])
+            .stdin(Stdio::null()).stdout(Stdio::piped()).stderr(Stdio::inherit()).spawn().expect("spawn worker"));
+    }
+    let mut res: Vec<(usize, Outcome)> = vec![]; let mut done = 0usize; let mut workers_ok = 0;
+    for c in children {
+        let out = c.wait_with_output().expect("worker output");
+        for l in String::from_utf8_lossy(&out.stdout).lines() {
+            let f: Vec<&str> = l.split('\t').collect();
+            if f[0] == "R" && f.len() >= 6 { res.push((f[1].parse().unwrap_or(0), Outcome { ok: f[2] == "true", class: f[3].to_string(), detail: f[4].to_string(), rc: f[5].parse().unwrap_or(-1) })); }
+            else if f[0] == "WDONE" { done += f[2].parse::<usize>().unwrap_or(0); workers_ok += 1; }
+        }
+    }
+    if workers_ok != nw || done != muts.len() { println!("HARNESS-ERROR\tlibrary workers finished {}/{} with {} of {} mutants", workers_ok, nw, done, muts.len()); }
+    res.sort_by_key(|r| r.0);
+    // every failure class of the library run is taken to the command line (first two examples): the class reported is the CLI's when it fails too
+    let dir = work_dir("c16").join("exec"); let _ = std::fs::create_dir_all(&dir);
+    let mut per_class: BTreeMap<String, usize> = BTreeMap::new();
+    let mut confirmed = 0; let mut lib_only = 0;
+    for (i, o) in res.iter_mut() {
+        if o.ok { continue; }
+        let c = per_class.entry(o.class.clone()).or_insert(0); *c += 1;
+        if *c > 2 { continue; }
+        let m = &muts[*i];
+        let o2 = run_one(&dir, &seeds[m.seed], &m.bytes, m.action, &m.opts, Some(false));
+        if !o2.ok { confirmed += 1; } else { lib_only += 1; }
+        if o.class.contains("-timeout") && o2.ok { o.ok = true; }   // a timeout has to reproduce
+    }
+    res.retain(|(_, o)| !o.ok || o.class == "ok" || o.class == "err");
+    report(seeds, muts, &res, "inproc");
+    println!("STATS\tinproc-exec\tfailure_examples_confirmed_through_truth-cli={}\tlibrary_only={}", confirmed, lib_only);
 }
 
 // -------------------------------------------------------------------------------------------------
@@ -715,10 +798,16 @@ fn main() {
             worker(&seeds, &muts, k, n);
         },
         Some("inproc") => {
-            truth::setup_for_test_harness();
             let seeds = load_manifest(&args[2]);
-            let muts = generate(&seeds, get(3).parse().unwrap_or(1000), &get(4), &mut rng);
-            run_all_inproc(&seeds, muts);
+            let budget: usize = get(3).parse().unwrap_or(1000);
+            let muts = lib_mutants(&seeds, budget, &get(4), &mut rng);
+            lib_master(&args[2], &seeds, &muts, budget, &get(4));
+        },
+        Some("libworker") => {
+            let (k, n): (usize, usize) = (get(2).parse().unwrap(), get(3).parse().unwrap());
+            let seeds = load_manifest(&args[4]);
+            let muts = lib_mutants(&seeds, get(5).parse().unwrap_or(1000), &get(6), &mut rng);
+            lib_worker(&seeds, &muts, k, n);
         },
         Some("corr") => {
             truth::setup_for_test_harness();
